@@ -9,7 +9,9 @@ cp -r /repo/hdc "$D/hdc"
 import re, sys
 p, old, new = sys.argv[1:4]
 s = open(p).read()
-s2, k = re.subn(old, new, s, count=0 if new.endswith("#ALL") else 1)
+allsites = new.endswith("#ALL")
+new = new[:-4] if allsites else new
+s2, k = re.subn(old, new, s, count=0 if allsites else 1)
 if k == 0:
     print("MUTATION DID NOT APPLY"); sys.exit(3)
 open(p, "w").write(s2)
